@@ -9,6 +9,7 @@ A *history* is a list of JSON-able operations::
     ["cancel", tgt]        tgt = ["p", r]  r-th (mod n) call the model holds pending (by creation id)
     ["reset", tgt, d]            ["a", r]  r-th (mod n) call ever created (also finished ones)
     ["delay", tgt, d]            "self"    the running call itself (outside a call: last created)
+                                 ["last"]  the most recently created call (schedule-and-cancel pairs)
     ["adv", a, chk]        top level only: advance the clock by a/16 and run one reactor iteration
                            (reactor mode) / Clock.advance (clock mode); chk: also check timeout()
     ["timeout"]            top level only, reactor mode: check timeout() (this also makes the
@@ -78,7 +79,10 @@ class ReactorTarget:
     def dispose(self):
         r = self.r
         for c in list(r.getDelayedCalls()):
-            c.cancel()
+            try:
+                c.cancel()
+            except Exception:  # noqa: BLE001 - a broken getDelayedCalls() (already reported) must not kill the shard
+                pass
         readers = getattr(r, "_internalReaders", None)
         if readers:
             for reader in list(readers):
@@ -158,6 +162,8 @@ class TimerRun:
             if me is not None:
                 return me
             return self.recs[-1] if self.recs else None
+        if tgt[0] == "last":
+            return self.recs[-1] if self.recs else None
         kind, r = tgt[0], tgt[1]
         if kind == "p" and self.pend:
             keys = list(self.pend)
@@ -206,6 +212,8 @@ class TimerRun:
             if k == "cancel":
                 rec.state = CANCELLED
                 del self.pend[rec.cid]
+                if self.in_run and rec.born_run == self.run_id:
+                    self.stat("eff_cancel_of_call_created_in_this_run")
             elif k == "reset":
                 rec.sched = self.now + op[2]
                 rec.resched = True
@@ -436,16 +444,28 @@ def gen_history(rng, family=None, allow_timeout=True):
 
     def target():
         r = rng.random()
-        if r < 0.7:
+        if r < 0.65:
             return ["p", rng.randrange(64)]
-        if r < 0.9:
+        if r < 0.83:
             return ["a", rng.randrange(64)]
+        if r < 0.91:
+            return ["last"]
         return "self"
 
     def body(depth):
         if rng.random() > body_p:
             return []
-        return [inner(depth) for _ in range(rng.choice([1, 1, 2, 2, 3, 5]))]
+        ops = []
+        for _ in range(rng.choice([1, 1, 2, 2, 3, 5])):
+            if rng.random() < 0.15:
+                ops += sched_and_cancel()
+            else:
+                ops.append(inner(depth))
+        return ops
+
+    def sched_and_cancel():
+        # callLater(...).cancel(): the cancelled call never leaves the staging list on its own
+        return [["call", delay(), []], ["cancel", ["last"]]]
 
     def inner(depth):
         r = rng.random()
@@ -485,14 +505,38 @@ def gen_history(rng, family=None, allow_timeout=True):
             h.append(["call", base + grid * rng.randrange(max(K, 8)), body(0) if rng.random() < 0.3 else []])
         h.append(rng.choice([["adv", 0, False], ["timeout"], ["adv", 0, True]]) if allow_timeout else ["adv", 0, False])
         live = rng.randrange(2, min(10, n - 51) + 1)
+        a = rng.randrange(0, base + 1)
+        n_trig = rng.choice([0, 1, 1, 2, 3])
+        if n_trig:
+            # calls that run in the very iteration that compacts the heap and, from inside it, schedule
+            # and cancel new calls (those sit cancelled in the staging list while the heap is compacted)
+            max_calls += 3 * n_trig + 10
+        late = []
+        for _ in range(n_trig):
+            b = sched_and_cancel()
+            if rng.random() < 0.4:
+                b += rng.choice([sched_and_cancel(), [["call", delay(), []]], [["cancel", ["p", rng.randrange(64)]]]])
+            trig = ["call", rng.randrange(0, a + 1), b]
+            if rng.random() < 0.3:
+                h.insert(rng.randrange(0, n + 1), trig)  # in the heap early; may itself be hit by the cancel burst
+            else:
+                late.append(trig)  # scheduled after the burst, staged until the compacting iteration starts
         for _ in range(n - live):
             h.append(["cancel", ["p", rng.randrange(64)]])
             if rng.random() < 0.05:
                 h.append(["reset", ["p", rng.randrange(64)], delay() + base])
-        h.append(["adv", rng.randrange(0, base + 1), rng.random() < 0.5 and allow_timeout])
+        h += late
+        h.append(["adv", a, rng.random() < 0.5 and allow_timeout])
+        for _ in range(rng.choice([0, 1, 1, 2])):
+            h += sched_and_cancel()  # a lone scheduled-and-cancelled call right after the compaction
+            if rng.random() < 0.5:
+                h.append(rng.choice([["timeout"], ["adv", 0, False]]) if allow_timeout else ["adv", 0, False])
         n_tail = rng.randrange(5, 40)
     else:
         n_tail = rng.choice([rng.randrange(3, 12), rng.randrange(10, 60), rng.randrange(50, 200)])
     for _ in range(n_tail):
-        h.append(top())
+        if rng.random() < 0.06:
+            h += sched_and_cancel()
+        else:
+            h.append(top())
     return h, max_calls
